@@ -13,6 +13,7 @@
   (known finding D2), which is why it is a hypothesis here and not a lemma about all `Prog`.
 -/
 import RapidProofs.PruneProp
+import RapidModel.Generated.CallOrders
 import RapidProofs.PruneCustom
 import RapidProofs.TranslatedCheckEq
 
@@ -116,5 +117,11 @@ theorem bodyGood_of_fatal_only (p : Prog) (hp : TsPure p) (hfuel : ∀ src, (p.r
     `blamed_case_fails` at the level of one test case -/
 example : (checkOnce (Prog.fatal "boom" 7) (.buf []) TS.fresh).err = some (.stop "boom" 7) := by
   decide
+
+/-- `captureTestOutput` re-read from /repo statement by statement: the output written to the fail file is that of one more replay of the minimized words on a `T` that logs into a buffer -/
+theorem captureTestOutput_body_source : Rapid.Generated.body_captureTestOutput =
+    ["{", "var b bytes.Buffer",
+     "l := log.New(&b, fmt.Sprintf(\"[%v] \", tb.Name()), log.Lmsgprefix|log.Ldate|log.Ltime|log.Lmicroseconds)",
+     "_ = checkOnce(newT(tb, newBufBitStream(buf, false), false, l), prop)", "return b.Bytes()", "}"] := by rfl
 
 end Rapid.C01
